@@ -51,7 +51,7 @@ type Profile struct {
 func DefaultProfile() Profile {
 	return Profile{MaxNodes: 5, MaxQueues: 5, MaxGroups: 7, MinCycles: 1, MaxCycles: 4,
 		PSharing: 3, PWholeGPU: 5, PGang: 4, PElastic: 3, PSubGroups: 2, PRunning: 5, PTerminating: 2, PBinding: 1,
-		PConstraints: 2, PTopology: 1, PSmallPodSlots: 2, PMIG: 1, PFaults: 2, PNonPreemptible: 3, PMinRuntime: 2, PLimits: 4, PPersistent: 4,
+		PConstraints: 2, PTopology: 1, PSmallPodSlots: 2, PMIG: 1, PFaults: 2, PNonPreemptible: 3, PMinRuntime: 2, PLimits: 4, PPersistent: 4, PMutations: 2,
 		Actions: [][]string{nil, nil, {"allocate"}, {"allocate", "reclaim"}, {"allocate", "preempt"}, {"allocate", "consolidation"}, {"allocate", "reclaim", "preempt"}},
 	}
 }
@@ -185,7 +185,7 @@ func GenWorld(t *rapid.T, pf Profile) *World {
 	if len(w.Cycles) > 1 && chance(t, pf.PPersistent, "persistentScheduler") {
 		w.PersistentScheduler = true
 	}
-	if pf.PMutations > 0 && len(w.Cycles) > 1 {
+	if pf.PMutations > 0 && len(w.Cycles) > 1 && !pf.Closed {
 		genMutations(t, pf, w)
 	}
 	return w
@@ -196,7 +196,7 @@ func GenWorld(t *rapid.T, pf Profile) *World {
 func genMutations(t *rapid.T, pf Profile, w *World) {
 	kinds := pf.MutationKinds
 	if len(kinds) == 0 {
-		kinds = []string{"pc-set", "pg-priorityclass", "queue-gpu", "node-label", "node-unschedulable"}
+		kinds = []string{"pc-set", "pg-priorityclass", "queue-gpu", "node-label", "node-unschedulable", "node-cpu", "node-gpus", "pod-finish", "pg-queue"}
 	}
 	allowed := map[string]bool{}
 	for _, k := range kinds {
@@ -273,6 +273,42 @@ func genMutations(t *rapid.T, pf Profile, w *World) {
 				default:
 					m.Value = pickS(t, "mutDisk", "", "ssd", "hdd")
 				}
+			case "node-cpu":
+				n := w.Nodes[uniform(t, len(w.Nodes), "mutNode3")]
+				m = Mutation{Kind: kind, Target: n.Name, Value: strconv.Itoa(pickInt(t, "mutCpu", 2000, 4000, 8000, 16000, 32000))}
+			case "node-gpus":
+				n := w.Nodes[uniform(t, len(w.Nodes), "mutNode4")]
+				if n.GPUs == 0 || n.MigStrategy != "" {
+					continue
+				}
+				m = Mutation{Kind: kind, Target: n.Name, Value: strconv.Itoa(pickInt(t, "mutGpus", 1, 2, 4, 8))}
+			case "pod-finish":
+				var running []string
+				for _, g := range w.Groups {
+					for _, p := range g.Pods {
+						if p.State == Running {
+							running = append(running, p.Name)
+						}
+					}
+				}
+				if len(running) == 0 {
+					continue
+				}
+				m = Mutation{Kind: kind, Target: running[uniform(t, len(running), "mutPod")]}
+			case "pg-queue":
+				leaves := w.LeafQueues()
+				if len(w.Groups) == 0 || len(leaves) == 0 {
+					continue
+				}
+				g := w.Groups[uniform(t, len(w.Groups), "mutGroupQ")]
+				running := false
+				for _, p := range g.Pods {
+					running = running || p.State != Pending
+				}
+				if running {
+					continue // only workloads that have not started are moved (the queue of a started workload is history)
+				}
+				m = Mutation{Kind: kind, Target: g.Name, Value: leaves[uniform(t, len(leaves), "mutLeaf")]}
 			case "node-unschedulable":
 				n := w.Nodes[uniform(t, len(w.Nodes), "mutNode2")]
 				// flips relative to the state reached so far
